@@ -1023,6 +1023,56 @@ private theorem runRefs_total (fetcher : Fetcher) (opts : Opts) (refs : List Doc
             subst hv
             simpa using ih cache' hkeep hrest
 
+private theorem drawSvg_keeps_in_memory (fetcher : Fetcher) (opts : Opts) (items : List Doc.SvgItem) (cache : Cache)
+    (hc : cacheInMemory cache)
+    (h : ∀ u, Doc.SvgItem.image u ∈ items → notFileLocation fetcher (u.getD "None")) :
+    cacheInMemory (Doc.drawSvg fetcher opts cache items).1 := by
+  induction items generalizing cache with
+  | nil => exact hc
+  | cons it rest ih =>
+    have hrest : ∀ u, Doc.SvgItem.image u ∈ rest → notFileLocation fetcher (u.getD "None") :=
+      fun u hu => h u (by simp [hu])
+    cases it with
+    | useExternal u => simp only [Doc.drawSvg]; exact ih cache hc hrest
+    | image url =>
+      simp only [Doc.drawSvg]
+      have hkeep := getImage_keeps_in_memory cache fetcher opts ⟨url.getD "None", .fromImage, some "image/*"⟩ hc
+        (h url (by simp))
+      cases hg : getImage cache fetcher opts ⟨url.getD "None", .fromImage, some "image/*"⟩ with
+      | mk cache' r =>
+        cases r with
+        | mk evs out =>
+          rw [hg] at hkeep
+          cases out with
+          | error e => exact hkeep
+          | ok v => exact ih cache' hkeep hrest
+
+private theorem lookup_mem {α} (l : List (Nat × α)) (k : Nat) (v : α) (h : l.lookup k = some v) : (k, v) ∈ l := by
+  induction l with
+  | nil => simp [List.lookup] at h
+  | cons x xs ih =>
+    obtain ⟨k', v'⟩ := x
+    simp only [List.lookup] at h
+    split at h
+    · rename_i heq
+      have : k = k' := by simpa using heq
+      cases h; subst this; simp
+    · exact List.mem_cons_of_mem _ (ih h)
+
+private theorem paintSvgs_keeps_in_memory (fetcher : Fetcher) (opts : Opts) (info : List (Nat × List Doc.SvgItem))
+    (cs : List Nat) (cache : Cache) (hc : cacheInMemory cache)
+    (h : ∀ e ∈ info, ∀ u, Doc.SvgItem.image u ∈ e.2 → notFileLocation fetcher (u.getD "None")) :
+    cacheInMemory (Doc.paintSvgs fetcher opts info cache cs).1 := by
+  induction cs generalizing cache with
+  | nil => exact hc
+  | cons c rest ih =>
+    simp only [Doc.paintSvgs]
+    apply ih
+    apply drawSvg_keeps_in_memory _ _ _ _ hc
+    cases hl : info.lookup c with
+    | none => intro u hu; simp at hu
+    | some items => exact h (c, items) (lookup_mem info c items hl)
+
 private theorem localPaths_nil (cache : Cache) (fmt : String) (h : cacheInMemory cache) :
     Doc.localPaths cache fmt = [] := by
   unfold Doc.localPaths
@@ -1115,10 +1165,13 @@ structure PlainDocument (d : Doc.Document) : Prop where
   images : ∀ r ∈ d.images, ∀ u, r.url = some u → Fetched.absorbed (d.fetcher u) = true ∧ notFileLocation d.fetcher u
   metas : ∀ u ∈ d.metaAttachments, Fetched.absorbed (d.fetcher u) = true
   annots : ∀ u ∈ d.annotAttachments, Fetched.absorbed (d.fetcher u) = true
+  svgs : ∀ e ∈ d.svgInfo, ∀ u, Doc.SvgItem.image u ∈ e.2 → notFileLocation d.fetcher (u.getD "None")
 
 /-- `failure degrades gracefully`, whole pipeline: on a plain document — whatever subset of its
 fetches fails and in whatever mode (exception, empty, truncated, wrong type, HTML) — `render` and
-`write_pdf` both complete, and no local file is opened behind the fetcher, whatever is on disk. -/
+`write_pdf` both complete, and no local file is opened behind the fetcher, whatever is on disk.  The
+fetches made while SVG images are drawn need no hypothesis at all besides the `file:` one: whatever
+they raise is absorbed by `SVGImage.draw`. -/
 theorem document_completes_partial (d : Doc.Document) (h : PlainDocument d) :
     (Doc.run d).render = .ok () ∧ (Doc.run d).write = .ok () ∧ (Doc.run d).opens = [] := by
   have hcss := find_stylesheets_total_partial d.device d.styles h.styles
@@ -1148,12 +1201,14 @@ theorem document_completes_partial (d : Doc.Document) (h : PlainDocument d) :
         simp only at has
         subst has
         simp only
+        have hmem := paintSvgs_keeps_in_memory d.fetcher d.opts d.svgInfo
+          (d.images.filterMap (Doc.svgOfRef cache)) cache hmem h.svgs
         cases hm : metadataAttachments d.fetcher d.metaAttachments with
         | mk evs' mout =>
           rw [hm] at hms
           simp only at hms
           subst hms
-          simp [localPaths_nil cache _ hmem, Doc.readLocal]
+          simp [localPaths_nil _ _ hmem, Doc.readLocal]
 
 /-- Non-vacuity: a document with a stylesheet, an @import, a font, an image and an attachment whose
 fetches all fail is plain; it renders with the alt text, no rule, no font, nothing embedded. -/
@@ -1172,7 +1227,7 @@ def failingDocument : Doc.Document where
   fs := fun _ => none
 
 example : PlainDocument failingDocument := by
-  refine ⟨?_, ?_, ?_, ?_⟩
+  refine ⟨?_, ?_, ?_, ?_, ?_⟩
   · intro el hel
     simp only [failingDocument, List.mem_cons, List.not_mem_nil, or_false] at hel
     rcases hel with h | h <;> subst h <;>
@@ -1183,6 +1238,8 @@ example : PlainDocument failingDocument := by
     simp [failingDocument] at hresp
   · intro u _; rfl
   · intro u hu; simp [failingDocument] at hu
+  · intro e he u _ r hr
+    simp [failingDocument] at hr
 
 example : (Doc.run failingDocument).rules = [3] ∧ (Doc.run failingDocument).boxes = [[.altText "ALT"]] ∧
     (Doc.run failingDocument).embedded = [] := by decide
